@@ -33,7 +33,20 @@
    connection).  The state these sequences act on is pm: the abstract content of the protocol manager's block cache and
    confirm cache and what the chain has.  The design keeps the node alive and its state within the envelope of
    WireSeq (SeqEnvelope); TLC's state graph over pm makes the engine reach every abstract cache content with every
-   message, which is then replayed on the real node. *)
+   message, which is then replayed on the real node.
+
+   THE RECEIVE-SIDE LAYER (RxOn).  Everything the node SENDS - its handshake response, its protocol handshake, the answers to
+   requests (status, blocks, confirm packs, discover response), its own requests, heartbeats, broadcasts - is a write to the
+   connection, and the remote party decides what becomes of it ON ITS RECEIVING SIDE: it takes the bytes (rx = "read"); it stops
+   reading, so that the node's write makes no progress until the deadline the node gave it (StopReading, rx = "stall"); it
+   refuses them - the connection is reset / half-closed in the node's sending direction, every write fails at once while the
+   node can still read what the remote sends (ResetConn, rx = "rst"); or it hangs up altogether (HangUp) - at any moment, in
+   every phase, in particular while an answer is in flight (pend).  It may also start reading again (Resume), wait until
+   the node's write deadline has passed (Deadline) or stay silent without reading until the node gives up (StallOut).
+   Demanded (bounded time, judged from observations taken once the node's deadline plus a grace period is over): no write
+   of the node is still waiting, no goroutine of the node waits for a lock (the design: a failed write makes the writer
+   drop the connection WITHOUT re-entering the peer's write lock), malformed input sent meanwhile still gets the connection
+   closed, a connection the remote hung up is closed and its peer forgotten, and the node goes on serving (reconnect probe). *)
 EXTENDS Integers, Sequences, FiniteSets, TLC, WireSeq
 
 CONSTANTS Table,        \* see above
@@ -51,17 +64,28 @@ CONSTANTS Table,        \* see above
           SeqBlocks,    \* the universe of block descriptors
           SeqMsgs,      \* the BlocksMsg payloads: a set of sequences over SeqBlocks
           SeqConfirms,  \* the ConfirmMsg payloads: a set of pairs <<block descriptor, signer>>
-          SeqMix        \* single-message classes interleaved with the sequence layer
+          SeqMix,       \* single-message classes interleaved with the sequence layer
+          RxOn,         \* TRUE: the receive-side layer is enumerated (on the first connection)
+          Answering,    \* classes after which the node writes to the connection (an answer, or a request of its own)
+          RxMax,        \* max number of receive-side actions in a behaviour
+          RxBystander,  \* TRUE: a second, well-behaved remote party (the bystander) may be connected as well
+          RxStallOut    \* TRUE: StallOut is enumerated (it costs the node's heartbeat interval plus its retries in real time)
 
 VARIABLES phase,   \* "Idle" | "PreHs" | "OutHs" | "ProtoHs" | "Est" | "Closed" | "Undet" (closed or kept, both acceptable) | "Done"
           dir,     \* who opened the current connection: "in" the remote party (node accepts), "out" the node (it dialed); "none" before
           alive, stuck, allocK, recvK,   \* node still running / a handler deadlocked / KiB allocated resp. received in the last step
           n, conns, hist,
           pm,      \* sequence layer: abstract out-of-order state of the protocol manager [known, stable, bc, cc] (WireSeq)
-          univ     \* = SeqBlocks, constant; in the state so that the binding reads the universe from the initial state
-vars == <<phase, dir, alive, stuck, allocK, recvK, n, conns, hist, pm, univ>>
+          univ,    \* = SeqBlocks, constant; in the state so that the binding reads the universe from the initial state
+          rx,      \* receive-side layer: what the remote does with the node's writes: "read" | "stall" | "rst"
+          pend,    \* "none", or the class whose answer is in flight: a write of the node which the remote does not take
+          rxn,     \* receive-side actions so far
+          by       \* the bystander: "no" not connected | "yes" connected and served | "owed" a transaction the remote sent has still to be passed on to it
+vars == <<phase, dir, alive, stuck, allocK, recvK, n, conns, hist, pm, univ, rx, pend, rxn, by>>
 \* in the sequence layer the history does not matter (a second connection is a full one, not a probe)
 SeqView == <<phase, dir, alive, stuck, n, pm>>
+\* in the receive-side layer it does not matter either: what matters of the past is what the remote does with the node's writes and which answer is in flight
+RxView == <<phase, dir, alive, stuck, n, conns, rx, pend, rxn, by>>
 
 HsPhases == {"PreHs", "OutHs"}                    \* the node reads a handshake packet: a request (accepting) resp. a response (dialing)
 OpenPhases == {"PreHs", "OutHs", "ProtoHs", "Est"}
@@ -74,6 +98,7 @@ Bound(rk) == MaxFrameK + SlackK + C * rk
 Init == /\ phase = "Idle" /\ dir = "none" /\ alive = TRUE /\ stuck = FALSE /\ allocK = 0 /\ recvK = 0
         /\ n = 0 /\ conns = 0 /\ hist = <<>>
         /\ pm = PmInit /\ univ = SeqBlocks
+        /\ rx = "read" /\ pend = "none" /\ rxn = 0 /\ by = "no"
 
 \* The node receives one input of class c.
 Recv(c) ==
@@ -83,23 +108,36 @@ Recv(c) ==
   /\ c \in Heavy => n = 0
   /\ (conns > 1 /\ ~SeqOn) => c = Probe[phase]
   /\ (SeqOn /\ phase = "Est") => c \in SeqMix
+  /\ (RxOn /\ conns = 1 /\ phase = "Est") => c \in SeqMix                          \* receive-side layer: SeqMix = what the remote sends meanwhile
+  /\ (RxOn /\ conns = 1 /\ phase = "ProtoHs") => c \in SeqMix \cup {"Phs_Good"}
   /\ \E t \in Rows(c, phase) :
        LET react == t[3]  annK == t[4]  sentK == t[5]
            eff == IF t[6] \in Dev THEN t[7] ELSE "none"
            limitK == IF eff = "alloc" /\ phase \in HsPhases THEN HsLimitDevK ELSE MaxFrameK
            \* a length-prefixed reader allocates the announced length iff it passes the limit; processing costs <= C per KiB received
            al == (IF annK <= limitK THEN annK ELSE 0) + (IF eff = "alloc" /\ phase \notin HsPhases THEN Bound(sentK) + 1 ELSE C * sentK)
-           np == CASE react = "close" -> "Closed"
+           np0 == CASE react = "close" -> "Closed"
                    [] react = "any"   -> IF c \in Carriers /\ conns = 1 /\ phase = "Est" THEN phase ELSE "Undet"   \* enumeration goes on as if kept
                    [] react = "adv"   -> IF c \in Carriers THEN NextPhase(phase) ELSE "Done"
                    [] react = "keep"  -> IF c \in Carriers /\ conns = 1 THEN phase ELSE "Done"
+           \* receive side: an answer that is refused drops the connection; behind a write in flight the closing of a malformed
+           \* input waits for the peer's write lock (until the deadline of that write): closed now or then
+           nq == CASE rx = "rst" /\ c \in Answering -> "Undet"
+                   [] rx = "stall" /\ pend # "none" /\ np0 = "Closed" -> "Undet"
+                   [] OTHER -> np0
        IN /\ alive' = (eff # "panic")
           /\ stuck' = (eff = "stuck")
           /\ allocK' = al /\ recvK' = sentK
-          /\ phase' = np
-          /\ n' = IF np = phase THEN (IF SeqOn /\ phase = "Est" THEN n ELSE n + 1) ELSE 0
-  /\ hist' = IF SeqOn THEN hist ELSE Append(hist, c)
-  /\ UNCHANGED <<conns, dir, pm, univ>>
+          /\ phase' = nq
+          /\ n' = IF nq = phase THEN (IF SeqOn /\ phase = "Est" THEN n ELSE n + 1) ELSE 0
+          /\ pend' = IF nq \in OpenPhases THEN (IF pend = "none" /\ rx = "stall" /\ c \in Answering THEN c ELSE pend) ELSE "none"
+          /\ rx' = IF nq \in OpenPhases THEN rx ELSE "read"
+          \* a good transaction is passed on to every peer: behind a write to a remote that does not read the bystander gets it once that write is over
+          /\ by' = CASE by = "yes" /\ c = "Txs_Good" /\ phase = "Est" /\ rx = "stall" /\ nq \in OpenPhases -> "owed"
+                      [] by = "owed" /\ nq \notin OpenPhases -> "yes"
+                      [] OTHER -> by
+  /\ hist' = IF SeqOn \/ RxOn THEN hist ELSE Append(hist, c)
+  /\ UNCHANGED <<conns, dir, pm, univ, rxn>>
 
 \* A connection is opened in direction d: at the start, and again after the node closed (or may have closed) the previous
 \* one - the node must still serve the remote party (and still be able to dial it).
@@ -112,16 +150,52 @@ CanOpen(d) ==
 Connect ==
   /\ CanOpen("in")
   /\ phase' = "PreHs" /\ dir' = "in"
-  /\ conns' = (IF SeqOn THEN 1 ELSE conns + 1) /\ n' = 0 /\ hist' = (IF SeqOn THEN hist ELSE Append(hist, "Connect"))
+  /\ conns' = (IF SeqOn THEN 1 ELSE conns + 1) /\ n' = 0 /\ hist' = (IF SeqOn \/ RxOn THEN hist ELSE Append(hist, "Connect"))
   /\ allocK' = 0 /\ recvK' = 0
-  /\ UNCHANGED <<alive, stuck, pm, univ>>
+  /\ rx' = "read" /\ pend' = "none"
+  /\ UNCHANGED <<alive, stuck, pm, univ, rxn, by>>
 \* the node dials the remote party: it sends its handshake request and waits for the response
 Dial ==
   /\ CanOpen("out")
   /\ phase' = "OutHs" /\ dir' = "out"
-  /\ conns' = (IF SeqOn THEN 1 ELSE conns + 1) /\ n' = 0 /\ hist' = (IF SeqOn THEN hist ELSE Append(hist, "Dial"))
+  /\ conns' = (IF SeqOn THEN 1 ELSE conns + 1) /\ n' = 0 /\ hist' = (IF SeqOn \/ RxOn THEN hist ELSE Append(hist, "Dial"))
   /\ allocK' = 0 /\ recvK' = 0
-  /\ UNCHANGED <<alive, stuck, pm, univ>>
+  /\ rx' = "read" /\ pend' = "none"
+  /\ UNCHANGED <<alive, stuck, pm, univ, rxn, by>>
+
+\* ------------------------------------------------------------------ the receive-side layer
+RxReady == RxOn /\ alive /\ ~stuck /\ phase \in OpenPhases /\ conns = 1 /\ rxn < RxMax
+\* Deviation (negative control only): the writer of a failed write re-enters the peer's write lock and waits for itself
+RxFail == pend # "none" /\ "Dev_FailedWriteSelfDeadlock" \in Dev
+RxStep(nph, nrx) ==
+  /\ phase' = nph /\ rx' = (IF nph \in OpenPhases THEN nrx ELSE "read") /\ pend' = "none" /\ rxn' = rxn + 1
+  /\ stuck' = RxFail
+  /\ allocK' = 0 /\ recvK' = 0 /\ n' = (IF nph = phase THEN n ELSE 0)
+  /\ by' = (IF by = "owed" /\ ~RxFail THEN "yes" ELSE by)          \* whatever was held up behind the write in flight goes on
+  /\ UNCHANGED <<dir, alive, conns, pm, univ, hist>>
+\* the remote stops taking bytes off the connection.  (Not while the node still has to answer the encryption handshake of an
+\* accepted connection: that one write has no deadline in the design either - the packet is smaller than any send buffer.)
+StopReading ==
+  /\ RxReady /\ rx = "read" /\ phase \in {"OutHs", "ProtoHs", "Est"}
+  /\ rx' = "stall" /\ rxn' = rxn + 1
+  /\ allocK' = 0 /\ recvK' = 0
+  /\ UNCHANGED <<phase, dir, alive, stuck, n, conns, pm, univ, pend, hist, by>>
+\* a second remote party connects and behaves (genuine handshakes, reads everything): it must be served whatever the first one does
+Bystander ==
+  /\ RxOn /\ RxBystander /\ alive /\ ~stuck /\ phase = "Est" /\ conns = 1 /\ rx = "read" /\ rxn = 0 /\ n = 0 /\ by = "no"
+  /\ by' = "yes" /\ allocK' = 0 /\ recvK' = 0
+  /\ UNCHANGED <<phase, dir, alive, stuck, n, conns, hist, pm, univ, rx, pend, rxn>>
+\* the remote starts reading again: what was in flight is delivered - unless its deadline passed meanwhile
+Resume == RxReady /\ rx = "stall" /\ RxStep(IF pend # "none" THEN "Undet" ELSE phase, "read")
+\* the node's sending direction is reset: the write in flight and every later one fail at once; a failed answer drops the connection
+ResetConn == RxReady /\ rx \in {"read", "stall"} /\ RxStep(IF pend # "none" THEN "Undet" ELSE phase, "rst")
+\* the remote hangs up: the node must notice, give up what is in flight and close its end
+HangUp == RxReady /\ RxStep("Closed", "read")
+\* the deadline the node gave its write in flight passes: the write fails, its caller drops the connection (or, for a request of
+\* the node's own, may keep it: the heartbeat will find out)
+Deadline == RxReady /\ rx = "stall" /\ pend # "none" /\ RxStep("Undet", "stall")
+\* the remote neither reads nor sends until the node gives up: the heartbeat cannot be written, the node drops the connection
+StallOut == RxReady /\ RxStallOut /\ rx = "stall" /\ phase = "Est" /\ RxStep("Closed", "read")
 
 \* ------------------------------------------------------------------ the sequence layer
 SeqReady == SeqOn /\ alive /\ ~stuck
@@ -136,13 +210,13 @@ SBlocks(ds) ==
        /\ Assert(IdsEnvelope({BId(d) : d \in r.pm.bc}, {BId(d) : d \in pm.bc}, ds, pm.known, pm.stable)
                  /\ CountEnvelope(Cardinality(r.pm.bc), Cardinality(r.pm.cc), Cardinality(pm.bc), Cardinality(pm.cc), Len(ds), 0),
                  "the design leaves the envelope")
-  /\ SeqCost /\ UNCHANGED <<dir, alive, stuck, n, conns, hist, univ>>
+  /\ SeqCost /\ UNCHANGED <<dir, alive, stuck, n, conns, hist, univ, rx, pend, rxn, by>>
 \* one ConfirmMsg for block d "signed" by s
 SConfirm(d, s) ==
   /\ SeqReady /\ phase = "Est"
   /\ pm' = Confirm(pm, d, s)
   /\ Assert(CountEnvelope(Cardinality(pm'.bc), Cardinality(pm'.cc), Cardinality(pm.bc), Cardinality(pm.cc), 0, 1), "the design leaves the envelope")
-  /\ SeqCost /\ UNCHANGED <<phase, dir, alive, stuck, n, conns, hist, univ>>
+  /\ SeqCost /\ UNCHANGED <<phase, dir, alive, stuck, n, conns, hist, univ, rx, pend, rxn, by>>
 \* the manager's queue timer passes (it runs whether or not a peer is connected).  Deviation: a pass that empties two
 \* height slots of the cache kills the node (removal from the slot list while ranging over it).
 Tick ==
@@ -152,12 +226,13 @@ Tick ==
             /\ CountEnvelope(Cardinality(pm'.bc), Cardinality(pm'.cc), Cardinality(pm.bc), Cardinality(pm.cc), 0, 0), "the design leaves the envelope")
   /\ alive' = ~("Dev_CachePassEmptiesTwoSlots" \in Dev /\ Cardinality(EmptiedSlots(pm)) >= 2)
   /\ allocK' = 0 /\ recvK' = 0
-  /\ UNCHANGED <<phase, dir, stuck, n, conns, hist, univ>>
+  /\ UNCHANGED <<phase, dir, stuck, n, conns, hist, univ, rx, pend, rxn, by>>
 
 Next == \/ Connect \/ Dial \/ \E c \in Classes : Recv(c)
         \/ \E ds \in SeqMsgs : SBlocks(ds)
         \/ \E c \in SeqConfirms : SConfirm(c[1], c[2])
         \/ Tick
+        \/ StopReading \/ Resume \/ ResetConn \/ HangUp \/ Deadline \/ StallOut \/ Bystander
 Spec == Init /\ [][Next]_vars
 
 \* ------------------------------------------------------------------ the clauses of the property
@@ -180,7 +255,17 @@ TypeOK == /\ phase \in {"Idle", "PreHs", "OutHs", "ProtoHs", "Est", "Closed", "U
           /\ SeqOn \in BOOLEAN /\ SeqMix \subseteq Classes /\ univ = SeqBlocks
           /\ \A ds \in SeqMsgs : \A i \in 1..Len(ds) : ds[i] \in SeqBlocks
           /\ \A c \in SeqConfirms : c[1] \in SeqBlocks
+          /\ RxOn \in BOOLEAN /\ RxStallOut \in BOOLEAN /\ RxBystander \in BOOLEAN /\ by \in {"no", "yes", "owed"} /\ rx \in {"read", "stall", "rst"} /\ pend \in Answering \cup {"none"} /\ rxn \in 0..RxMax
           /\ pm.bc \subseteq SeqBlocks /\ pm.known \subseteq {BId(d) : d \in SeqBlocks} \cup {"G"} /\ pm.stable \in Nat
+\* ------------------------------------------------------------------ the receive-side layer: what the design maintains
+\* a write can only be left in flight by a remote that does not read, on an open connection
+RxPendOnlyStalled == pend # "none" => rx = "stall" /\ phase \in OpenPhases
+\* bounded time: once the remote hung up, reset the connection, resumed, or the deadline passed, nothing of the node is in flight
+\* any more - and nobody waits (NoDeadlock)
+\* the bystander is unaffected: something is owed to it only while a write to a remote that does not read is in flight
+RxBystanderServed == by = "owed" => rx = "stall" /\ pend # "none" /\ phase \in OpenPhases
+RxSettles == [][rxn' > rxn /\ rx' # "stall" => pend' = "none"]_vars
+RxDeadlineSettles == [][(rxn' > rxn /\ rx = "stall" /\ rx' = "stall" /\ phase' # phase) => pend' = "none"]_vars
 \* ------------------------------------------------------------------ the sequence layer: what the design maintains
 \* only blocks that have to wait are kept: above the stable height, not a "different genesis" block, not on the chain
 SeqCacheWaiting == \A d \in pm.bc : BH(d) > 1 /\ BH(d) > pm.stable /\ BId(d) \notin pm.known
